@@ -113,8 +113,15 @@ theorem signed_diff (sa sb : Bool) (A B R U : Nat) (h1 : R * 2^149 ≤ A * B) (h
   cases sa <;> cases sb <;> simp only [Bool.xor_false, Bool.xor_true, Bool.false_xor, Bool.true_xor, Bool.not_false, Bool.not_true,
       if_true, if_false, Bool.false_eq_true, Int.neg_mul, Int.mul_neg, Int.neg_neg] <;> omega
 
-theorem fpmul_ulp' (a b : Nat) (ha1 : 1 ≤ expOf a) (ha2 : expOf a ≤ 254) (hb1 : 1 ≤ expOf b) (hb2 : expOf b ≤ 254)
-    (hp : prodNormal a b = true) : mulOk a b (fpmul a b) = true := by
+theorem xor_sign (sa sb : Nat) (ha : sa < 2) (hb : sb < 2) :
+    b2n (decide (sa = 1) ^^ decide (sb = 1)) = (sa + sb) % 2 := by
+  have : sa = 0 ∨ sa = 1 := by omega
+  have : sb = 0 ∨ sb = 1 := by omega
+  rcases ‹sa = 0 ∨ sa = 1› with h | h <;> rcases ‹sb = 0 ∨ sb = 1› with h' | h' <;> subst h <;> subst h' <;> decide
+
+/-- the multiplier's bound (`mulOk`, the property) together with the tightened one-sided statement (`mulTight`) -/
+theorem fpmul_strong' (a b : Nat) (ha1 : 1 ≤ expOf a) (ha2 : expOf a ≤ 254) (hb1 : 1 ≤ expOf b) (hb2 : expOf b ≤ 254)
+    (hp : prodNormal a b = true) : mulOk a b (fpmul a b) = true ∧ mulTight a b (fpmul a b) = true := by
   have hEq := fpmul_eq a b ha1 hb1
   simp only [] at hEq
   rw [hEq]; clear hEq
@@ -151,9 +158,13 @@ theorem fpmul_ulp' (a b : Nat) (ha1 : 1 ≤ expOf a) (ha2 : expOf a ≤ 254) (hb
     have hfr : P / 2^24 % 2^23 < 2^23 := Nat.mod_lt _ (by decide)
     obtain ⟨w1, w2, w3, w4⟩ := fields_of_word _ (E - 126) _ hsb (by simp only [Nat.reducePow]; omega) hfr
     generalize b2n (decide (signOf a = 1) ^^ decide (signOf b = 1)) * 2 ^ 31 + ((E - 126) * 2 ^ 23 + P / 2 ^ 24 % 2 ^ 23) = r at *
-    unfold mulOk normal
-    simp only [Bool.and_eq_true, decide_eq_true_eq]
-    refine ⟨⟨⟨w1, by omega⟩, by omega⟩, ?_⟩
+    have hnr : normal r = true := by
+      unfold normal
+      simp only [Bool.and_eq_true, decide_eq_true_eq]
+      exact ⟨⟨w1, by omega⟩, by omega⟩
+    unfold mulOk mulTight
+    rw [hnr]
+    simp only [Bool.and_eq_true, decide_eq_true_eq, Bool.true_and]
     have hmant : mant r = P / 2^24 := by
       unfold mant; rw [w4]; clear hp1 hp2; omega
     have hU : 2^(E - 126 - 1) * 2^149 = 2^24 * 2^(E - 2) := by
@@ -172,8 +183,12 @@ theorem fpmul_ulp' (a b : Nat) (ha1 : 1 ≤ expOf a) (ha2 : expOf a ≤ 254) (hb
       unfold sval; by_cases h : signOf a = 1 <;> simp [h]
     have sb : sval b = if decide (signOf b = 1) then -(mag b : Int) else (mag b : Int) := by
       unfold sval; by_cases h : signOf b = 1 <;> simp [h]
-    rw [sr, sa, sb]
-    exact key
+    refine ⟨?_, ⟨⟨?_, ?_⟩, ?_⟩⟩
+    · rw [sr, sa, sb]
+      exact key
+    · rw [w2]; exact xor_sign _ _ (signOf_lt a) (signOf_lt b)
+    · rw [hR, hAB]; exact t1
+    · rw [hR, hAB]; unfold ulp; rw [w3, hU]; exact t2
   · -- product in [1,2)
     have hP47 : P < 2^47 := by clear hp1 hp2; omega
     have lo := pow_bound_lo P 47 (E - 2) 172 hP47 hp1
@@ -183,9 +198,13 @@ theorem fpmul_ulp' (a b : Nat) (ha1 : 1 ≤ expOf a) (ha2 : expOf a ≤ 254) (hb
     have hfr : P / 2^23 % 2^23 < 2^23 := Nat.mod_lt _ (by decide)
     obtain ⟨w1, w2, w3, w4⟩ := fields_of_word _ (E - 127) _ hsb (by simp only [Nat.reducePow]; omega) hfr
     generalize b2n (decide (signOf a = 1) ^^ decide (signOf b = 1)) * 2 ^ 31 + ((E - 127) * 2 ^ 23 + P / 2 ^ 23 % 2 ^ 23) = r at *
-    unfold mulOk normal
-    simp only [Bool.and_eq_true, decide_eq_true_eq]
-    refine ⟨⟨⟨w1, by omega⟩, by omega⟩, ?_⟩
+    have hnr : normal r = true := by
+      unfold normal
+      simp only [Bool.and_eq_true, decide_eq_true_eq]
+      exact ⟨⟨w1, by omega⟩, by omega⟩
+    unfold mulOk mulTight
+    rw [hnr]
+    simp only [Bool.and_eq_true, decide_eq_true_eq, Bool.true_and]
     have hmant : mant r = P / 2^23 := by
       unfold mant; rw [w4]; clear hp1 hp2; omega
     have hU : 2^(E - 127 - 1) * 2^149 = 2^23 * 2^(E - 2) := by
@@ -204,9 +223,16 @@ theorem fpmul_ulp' (a b : Nat) (ha1 : 1 ≤ expOf a) (ha2 : expOf a ≤ 254) (hb
       unfold sval; by_cases h : signOf a = 1 <;> simp [h]
     have sb : sval b = if decide (signOf b = 1) then -(mag b : Int) else (mag b : Int) := by
       unfold sval; by_cases h : signOf b = 1 <;> simp [h]
-    rw [sr, sa, sb]
-    exact key
+    refine ⟨?_, ⟨⟨?_, ?_⟩, ?_⟩⟩
+    · rw [sr, sa, sb]
+      exact key
+    · rw [w2]; exact xor_sign _ _ (signOf_lt a) (signOf_lt b)
+    · rw [hR, hAB]; exact t1
+    · rw [hR, hAB]; unfold ulp; rw [w3, hU]; exact t2
 
+
+theorem fpmul_ulp' (a b : Nat) (ha1 : 1 ≤ expOf a) (ha2 : expOf a ≤ 254) (hb1 : 1 ≤ expOf b) (hb2 : expOf b ≤ 254)
+    (hp : prodNormal a b = true) : mulOk a b (fpmul a b) = true := (fpmul_strong' a b ha1 ha2 hb1 hb2 hp).1
 
 theorem xor2_comm1 (x y : Nat) : Lib.xor2 1 1 1 x y = Lib.xor2 1 1 1 y x := by
   unfold Lib.xor2 Lib.nand2 Leaf.and2
